@@ -128,6 +128,12 @@ def universe(tier):
         for e in gen(n, bl):
             if wellformed(e, aux):
                 yield ('bytes', to_bytes(e), [(k, (d[0], d[1], to_bytes(d[2]))) for k, d in AUX], True, 'abA:4')
+    # bytes mode, two operators over a four-leaf alphabet
+    bl4 = [('str', 'a'), ('str', 'ab'), ('byte', 0x61), ('re', 'b?')]
+    if tier == 'quick':
+        for e in gen(2, bl4):
+            if wellformed(e, aux):
+                yield ('bytes=2/small', to_bytes(e), [(k, (d[0], d[1], to_bytes(d[2]))) for k, d in AUX], True, 'abA:4')
     if tier == 'thorough':
         for e in gen(3, SMALL_LEAVES):
             if wellformed(e, aux):
